@@ -441,3 +441,6 @@ def run(ctx):
              "evaluated for both values of rank_enabled)")
     from rules import round4
     round4.check_cpus_sorted_always(ctx, "R15.6")
+    ctx.rule("R15.7", "a missing application id is refused: proc_init_end with appid 0 / negative fails")
+    from rules import round5
+    round5.check_appid_required(ctx, "R15.7")
